@@ -374,6 +374,57 @@ def Mgr.awaitHealthy (m : Mgr) : Option Bool :=
 def Mgr.awaitStopped (m : Mgr) : Option Bool :=
   if m.stoppedCloses = 0 then none else some true
 
+/-! ## services and their manager together
+
+`NewManager` installs its listener on every service first (listener 0, never removed); `handover i` is
+the goroutine of that listener on service `i` running its next callback, which is
+`serviceStateChanged` on the manager. Everything else that can happen to a service is `svc i e`. -/
+
+structure System where
+  svcs : List Svc
+  mgr : Mgr
+
+inductive SysEv
+  | svc (i : Nat) (e : Ev)      -- any event of service i, except those of the manager's own listener
+  | handover (i : Nat)
+  | mgrLsn (e : MEv)            -- AddListener / remove / callback of a ManagerListener
+deriving Repr
+
+def System.init (cfgs : List (Bool × Bool × Bool)) : System :=
+  { svcs := cfgs.map fun c => C17.step (C17.init c.1 c.2.1 c.2.2) .addListener, mgr := Mgr.init cfgs.length }
+
+/-- the notification the manager's listener on this service will hand over next. -/
+def nextForManager (s : Svc) : Option Notif :=
+  match s.lsns with
+  | l :: _ => if l.id = 0 ∧ l.removed = false then l.queue.head? else none
+  | [] => none
+
+/-- the state of a service as the manager knows it: where the last handed-over notification led. -/
+def viewOf (s : Svc) : SState :=
+  match s.lsns with
+  | l :: _ => (l.seen.getLast?.map Notif.to).getD .new
+  | [] => .new
+
+def System.step (y : System) : SysEv → System
+  | .svc i e =>
+    if e = .deliver 0 ∨ e = .removeListener 0 then y
+    else match y.svcs[i]? with
+      | some s => { y with svcs := y.svcs.set i (C17.step s e) }
+      | none => y
+  | .handover i =>
+    match y.svcs[i]? with
+    | some s =>
+      match nextForManager s with
+      | some n => { svcs := y.svcs.set i (C17.step s (.deliver 0)), mgr := y.mgr.step (.changed i n) }
+      | none => y
+    | none => y
+  | .mgrLsn e =>
+    match e with
+    | .changed _ _ => y
+    | _ => { y with mgr := y.mgr.step e }
+
+def System.run (y : System) (evs : List SysEv) : System := evs.foldl System.step y
+
 /-! ## FailureWatcher -/
 
 /-- `unregistered` = number of listener-remove funcs run by Close; `forwarded` = ghost log of sends on `ch`. -/
